@@ -14,6 +14,7 @@ use scpi::error::{Error, ErrorCode, ErrorQueue, Result};
 use scpi::tree::prelude::*;
 
 #[kani::proof]
+#[kani::unwind(8)]
 pub fn push_error_contract() {
     let d0 = any_dev();
     let e = any_error();
@@ -47,7 +48,7 @@ macro_rules! query {
 }
 
 #[kani::proof]
-#[kani::unwind(40)]
+#[kani::unwind(130)]
 #[kani::stub(<scpi::parser::tokenizer::Tokenizer as core::iter::Iterator>::next, stub_next)]
 pub fn syst_err_next() {
     set_script(&[]);
@@ -90,7 +91,7 @@ pub fn syst_err_count() {
 }
 
 #[kani::proof]
-#[kani::unwind(40)]
+#[kani::unwind(130)]
 #[kani::stub(<scpi::parser::tokenizer::Tokenizer as core::iter::Iterator>::next, stub_next)]
 pub fn syst_err_all() {
     set_script(&[]);
